@@ -61,7 +61,7 @@ Section C15.
     forall (s : stree) (M : list (list A)),
       Forall (fun r => length r = size s) M ->
       ravel_iso (unravel_iso s M) = M /\ coeffs_ok s (unravel_iso s M).
-  Proof. intros s M H. split; [apply ravel_unravel_iso|apply unravel_iso_ok]; exact H. Qed.
+  Proof. exact ravel_unravel_iso_both. Qed.
 
   (* ---- T15.2: the three orders hold the same numbers ---- *)
   Theorem C15_ravel_orders_agree_partial :
